@@ -123,6 +123,12 @@ func verifC06Hit(requestSide bool) {
 	var tEntry, tExit int64
 	body := &verifBody{failAt: -1}
 	transportFails := !requestSide && verif_nondet_bool("transport_fails")
+	// a transport failure may come with the last response received (its body
+	// already closed), as the redirect limit does
+	failsWithResponse := transportFails && verif_nondet_bool("failure_carries_last_response")
+	// Content-Length as the transport reports it: unknown (-1), the body's
+	// length, or a declared length with no body at all (a HEAD response)
+	contentLength := int64(-1)
 	status := verif_nondet_int("status")
 	verif_assume(status >= 100 && status <= 599)
 	respHeader := http.Header{"Content-Type": {"text/plain"}, "X-Multi": {"a", "b"}}
@@ -131,6 +137,12 @@ func verifC06Hit(requestSide bool) {
 		body.data = verif_nondet_bytes("response_body", n)
 		if !requestSide && verif_nondet_bool("read_fails") {
 			body.failAt = verif_choose("read_fails_after", n+1)
+		}
+		switch pick("content_length", 3, 0, !requestSide) {
+		case 1:
+			contentLength = int64(n)
+		case 2:
+			contentLength = int64(n) + 1 + int64(verif_choose("declared_beyond_body", 2))
 		}
 	}
 	verif_stub("(*net/http.Client).Do", func(c *http.Client, req *http.Request) (*http.Response, error) {
@@ -144,10 +156,14 @@ func verifC06Hit(requestSide bool) {
 			req.Header[k][0] = "overwritten-by-transport"
 		}
 		tExit = tick()
+		if failsWithResponse {
+			body.closed, body.sawEnd = true, true
+			return &http.Response{StatusCode: status, Status: "status text", Header: respHeader, Body: body, ContentLength: contentLength}, errors.New("model: stopped after 10 redirects")
+		}
 		if transportFails {
 			return nil, errors.New("model: dial tcp: connection refused")
 		}
-		return &http.Response{StatusCode: status, Status: "status text", Header: respHeader, Body: body}, nil
+		return &http.Response{StatusCode: status, Status: "status text", Header: respHeader, Body: body, ContentLength: contentLength}, nil
 	})
 
 	res := a.hit(func(t *Target) error { *t = tgt; return nil }, atk)
@@ -190,7 +206,11 @@ func verifC06Hit(requestSide bool) {
 
 	failed := transportFails || body.failAt >= 0
 	if transportFails {
-		verif_assert(res.Error != "" && res.Code == 0, "C06.failed-exchange-has-error-and-no-status")
+		verif_assert(res.Error != "", "C06.failed-exchange-has-error")
+		verif_assert(res.Code < 200 || res.Code >= 400, "C06.failed-exchange-never-has-a-success-status")
+		if !failsWithResponse {
+			verif_assert(res.Code == 0, "C06.failed-exchange-has-error-and-no-status")
+		}
 		return
 	}
 	verif_assert(body.closed, "C06.response-body-closed")
